@@ -347,6 +347,23 @@ pub fn plan(tier: Tier) -> Plan {
             do_case(&kvs, Front::MapExtendStreamMap, DEFAULT_GEOM, false, st, rep);
         }
     }));
+    // (d4b) key-length ladder: every length 2..1100 and around 2^11..2^16
+    for part in 0..16usize {
+        p.units.push(unit("key-length-ladder-(finite-family)", format!("length ladder part {}", part), move |st, rep| {
+            for (name, kvs) in key_length_ladder(part, 16) {
+                st.nontrivial += 1;
+                st.count("length_ladder_cases", 1);
+                let short = kvs.iter().map(|x| x.0.len()).max().unwrap() < 300;
+                if name.ends_with("set") {
+                    do_case(&kvs, Front::SetInsert, (2, 2), short, st, rep);
+                    do_case(&kvs, Front::RawAdd, DEFAULT_GEOM, false, st, rep);
+                } else {
+                    do_case(&kvs, Front::RawInsert, (2, 2), short, st, rep);
+                    do_case(&kvs, Front::MapExtendStreamMap, DEFAULT_GEOM, false, st, rep);
+                }
+            }
+        }));
+    }
     // (d5) mixed mid-size family (finite family, not an enumeration)
     {
         let total = if thorough { 1260 } else { 168 };
